@@ -405,6 +405,7 @@ protected:
 	sender_comp_id _sci; // used by acceptor
 	Connection *_connection;
 	unsigned _req_next_send_seq, _req_next_receive_seq;
+	unsigned _resend_target = 0; // MsgSeqNum that opened the gap being recovered (state st_resend_request_sent)
 	SessionID _sid;
 	struct SessionConfig *_sf;
 
